@@ -351,6 +351,7 @@ package fsutil
 //@ func dynamicWalker.update
 //@   property C07 C03 C19
 //@   requires w != nil
+//@   requires entry_has_stat: p == nil || p.stat != nil
 //@   effects ChanSend
 //@   note a nil result without a send is possible only through errors.Wrap(w.err) with w.err == nil after closeCh fired; fill() stores ctx.Err() before closing closeCh (channel happens-before, not modelled)
 //@   ensures fwd: result == nil && p != nil && old(w.err) != nil ==> cnt(ChanSend) == old(cnt(ChanSend)) + 1 && ptr(arg(ChanSend, 1), currentPath) == p
@@ -376,7 +377,7 @@ package fsutil
 //@   requires s != nil
 //@   requires built_from_an_os_entry: s.Stat == nil ==> specOSEntry(s.entry)
 //@   modifies s.Stat, s.seenFiles[*], array byte
-//@   effects Readlink LListxattr LGetxattr
+//@   effects Readlink LListxattr LListxattrRes LGetxattr
 //@   ensures cached: result1 == nil ==> s.Stat != nil && (old(s.Stat) != nil ==> s.Stat == old(s.Stat) && cnt(Readlink) == old(cnt(Readlink)))
 //@   ensures private_copy: result1 == nil ==> isptr(result0, StatInfo) && asptr(result0, StatInfo) != nil && asptr(result0, StatInfo).Stat != nil && fresh(asptr(result0, StatInfo).Stat) && asptr(result0, StatInfo).Stat.Path == s.Stat.Path && asptr(result0, StatInfo).Stat.Mode == s.Stat.Mode && asptr(result0, StatInfo).Stat.Linkname == s.Stat.Linkname
 //@   at call mkstat: once_from_own_entry: s.Stat == nil && arg0 == s.origpath && arg1 == s.path && arg3 == s.seenFiles
@@ -452,7 +453,9 @@ package fsutil
 // metadata-only mode: the pending (unselected) directories form a chain of direct parents, so
 // what is replayed for a selected entry are its ancestors and nothing else
 //@   loop 0 invariant pending_chain: forall k int, j int :: {metadataParents.items[k], metadataParents.items[j]} 0 <= k && j == k + 1 && j < len(metadataParents.items) ==> metadataParents.items[k].path == filepath.Dir(metadataParents.items[j].path)
+//@   loop 0 invariant pending_have_stat: forall k int :: {metadataParents.items[k]} 0 <= k && k < len(metadataParents.items) ==> metadataParents.items[k] != nil && metadataParents.items[k].stat != nil
 //@   loop 0 invariant pending_exist: forall k int :: {metadataParents.items[k]} 0 <= k && k < len(metadataParents.items) ==> allocated(metadataParents.items[k])
+//@   loop 1 invariant pending_have_stat: forall k int :: {metadataParents.items[k]} 0 <= k && k < len(metadataParents.items) ==> metadataParents.items[k] != nil && metadataParents.items[k].stat != nil
 //@   loop 1 invariant pending_exist: forall k int :: {metadataParents.items[k]} 0 <= k && k < len(metadataParents.items) ==> allocated(metadataParents.items[k])
 //@   loop 1 invariant pending_chain: forall k int, j int :: {metadataParents.items[k], metadataParents.items[j]} 0 <= k && j == k + 1 && j < len(metadataParents.items) ==> metadataParents.items[k].path == filepath.Dir(metadataParents.items[j].path)
 //@   at call stack.push: pending_parent_on_top: len(metadataParents.items) == 0 || metadataParents.items[len(metadataParents.items)-1].path == filepath.Dir(cp.path)
@@ -641,12 +644,16 @@ package fsutil
 // diff_containerd.go: the merge loop of the two-way walk diff
 // ---------------------------------------------------------------------------
 
-// entries arriving from the walkers carry a stat (getWalkerFn and the receive
-// loop both construct them that way); channel semantics are not modelled
+// entries arriving from the walkers carry a stat: an invariant of every value sent on a channel of
+// walk entries (an obligation at each send - the destination walker's callback, the receive loop's
+// forwarder - and a fact about each value received)
+//@ pred specSentEntry(v *currentPath) bool = v == nil || v.stat != nil
+//@ chaninv *currentPath specSentEntry
 //@ func nextPath
 //@   property C01 C02 C05
-//@   trusted channel receive: the walkers only send entries with a non-nil stat
+//@   effects CtxErr
 //@   ensures result0 != nil ==> result0.stat != nil
+//@   ensures entry_or_error: result1 != nil ==> result0 == nil
 
 // step obligations of the merge loop (no induction over the two sequences):
 //  - the "below an already removed directory" prefix always ends in the separator,
@@ -700,7 +707,7 @@ package fsutil
 //@   property C09
 //@   requires stat != nil
 //@   modifies stat.Xattrs
-//@   effects LListxattr LGetxattr
+//@   effects LListxattr LListxattrRes LGetxattr
 //@   ensures always_listed: cnt(LListxattr) == old(cnt(LListxattr)) + 1 && arg(LListxattr, 0) == origpath
 //@   ensures values_of_this_entry: cnt(LGetxattr) > old(cnt(LGetxattr)) ==> arg(LGetxattr, 0) == origpath
 //@   loop 0 invariant same_entry: cnt(LGetxattr) > old(cnt(LGetxattr)) ==> arg(LGetxattr, 0) == origpath
@@ -711,7 +718,7 @@ package fsutil
 //@   property C09 C01 C17 C02
 //@   requires fi != nil && isptr(fi.Sys(), syscall.Stat_t) && asptr(fi.Sys(), syscall.Stat_t) != nil
 //@   modifies inodemap[*]
-//@   effects Readlink LListxattr LGetxattr
+//@   effects Readlink LListxattr LListxattrRes LGetxattr
 //@   ensures fresh: result1 == nil ==> result0 != nil && fresh(result0)
 //@   ensures path: result1 == nil ==> result0.Path == relpath
 //@   ensures mode: result1 == nil ==> result0.Mode == uint32(fi.Mode()) &^ uint32(os.ModeSocket)
@@ -776,6 +783,9 @@ package fsutil
 //@   ensures passerr: err != nil ==> result == err && cnt(WalkFn) == old(cnt(WalkFn))
 //@   ensures atmost: cnt(WalkFn) <= old(cnt(WalkFn)) + 1
 //@   ensures prefixed: cnt(WalkFn) > old(cnt(WalkFn)) ==> arg(WalkFn, 0) == filepath.Join(d.Stat.Path, p) && isptr(arg(WalkFn, 1), DirEntryInfo) && asptr(arg(WalkFn, 1), DirEntryInfo).Stat != nil
+// a symlink's size is the length of its target (what lstat reports, and what the walk of a
+// destination written from this view will report): re-rooting an absolute target changes both
+//@   at call subDirFS.Walk.fn: rerooted_link_size_follows_target: fi.Mode() & os.ModeSymlink != 0 && strings.HasPrefix(stat.Linkname, "/") ==> stat.Size == len(stat.Linkname)
 
 // Go's string comparison is the bytewise lexicographic order: a strict total order
 //@ axiom str_trans: forall a string, b string, c string :: {a < b, b < c} a < b && b < c ==> a < c
@@ -1003,6 +1013,8 @@ package fsutil
 //@   ensures from_input: forall a int :: 0 <= a && a < len(result) ==> exists i int :: 0 <= i && i < len(in) && result[a] == in[i]
 //@   ensures prefix_free: specAscending(in) ==> forall a int, b int :: 0 <= a && a < len(result) && 0 <= b && b < len(result) && a != b ==> !specInside(result[b], result[a])
 //@   ensures ascending: specAscending(in) ==> forall a int, b int :: 0 <= a && a < b && b < len(result) ==> specPathLess(result[a], result[b])
+//@   ensures order_kept: forall a int, b int :: 0 <= a && a < b && b < len(result) ==> exists i int, j int :: 0 <= i && i < j && j < len(in) && result[a] == in[i] && result[b] == in[j]
+//@   loop 0 invariant order_kept: forall a int, b int :: 0 <= a && a < b && b < len(out) ==> exists i int, j int :: 0 <= i && i < j && j <= rangeindex && out[a] == in[i] && out[b] == in[j]
 //@   loop 0 invariant noroot: forall i int :: 0 <= i && i <= rangeindex ==> in[i] != "."
 //@   loop 0 invariant outfresh: fresh(out) && out != nil
 //@   loop 0 invariant room: cap(out) == len(in) && len(out) <= rangeindex + 1 && off(out) == 0
@@ -1281,7 +1293,52 @@ package fsutil
 // produced for it (never without one), under the walk's path
 //@ func getWalkerFn$1$1
 //@   property C01 C02 C05
+// precondition on what the walk hands to its callback (not checked at the dynamic call inside
+// Walk$1; DirEntryInfo.Info, the only producer, returns a StatInfo around a non-nil stat)
+//@   requires stat_not_typed_nil: err == nil && isptr(f.Sys(), types.Stat) ==> asptr(f.Sys(), types.Stat) != nil
 //@   effects ChanSend CtxErr
 //@   ensures passerr: err != nil ==> result == err && cnt(ChanSend) == old(cnt(ChanSend))
 //@   ensures nostat: err == nil && !isptr(f.Sys(), types.Stat) ==> result != nil && cnt(ChanSend) == old(cnt(ChanSend))
 //@   ensures forwarded: cnt(ChanSend) > old(cnt(ChanSend)) ==> cnt(ChanSend) == old(cnt(ChanSend)) + 1 && ptr(arg(ChanSend, 1), currentPath).path == path && ptr(arg(ChanSend, 1), currentPath).stat == asptr(f.Sys(), types.Stat)
+
+// ---------------------------------------------------------------------------
+// small remaining functions of the root package
+// ---------------------------------------------------------------------------
+//@ func min
+//@   property C11
+//@   ensures result <= x && result <= y && (result == x || result == y)
+//@ func ChangeKind.String
+//@   property C05
+//@   ensures names: (k == ChangeKindAdd ==> result == "add") && (k == ChangeKindModify ==> result == "modify") && (k == ChangeKindDelete ==> result == "delete")
+//@ func emptyWalker
+//@   property C01 C02
+//@   modifies nothing
+//@   ensures reports_nothing: result == nil
+//@ func isNotFound
+//@   property C18
+//@   ensures nil_is_not_notfound: err == nil ==> true
+//@ func StatInfo.ModTime
+//@   property C12 C17
+//@   requires s != nil && s.Stat != nil
+//@ func newWrappedWriteCloser
+//@   property C07
+//@   ensures wraps: result != nil && fresh(result) && result.WriteCloser == wc
+//@ func newDynamicWalker
+//@   property C07
+//@   ensures open: result != nil && fresh(result) && result.err == nil
+//@ func Stat
+//@   property C09
+//@   modifies heap
+//@   effects *
+//@   at call os.Lstat: no_follow: arg0 == path
+//@   at call mkstat: named_by_base: arg0 == path && arg1 == filepath.Base(path) && arg3 == nil
+// the top-level name selects the mounted view, the rest of the path is opened in it
+// (note: a path with no second component indexes past the split - Open("name") panics; outside
+// the listed properties: the entries under a top-level name are what a transfer opens)
+//@ func subDirFS.Open
+//@   property C11
+//@   safety -index
+//@   requires fs != nil
+//@   modifies array string
+//@   effects FsOpen FsOpenRes
+//@   at call FS.Open: rest_in_the_named_mount: haskey(fs.m, parts[0]) && arg0 == parts[1]
